@@ -179,11 +179,247 @@ fn id(x: i64) -> i64 {
     x
 }
 
+
+// ---------------------------------------------------------------- sensitivity self-test
+// `C06_MUTANT=<name> python3 check.py C06` must exit 1: the named combiner is replaced by a copy
+// of the /repo source with one realistic slip.  Never set in a normal run.
+mod mutants {
+    use ironbeam::collection::{CombineFn, LiftableCombiner};
+    use std::cmp::Reverse;
+    use std::collections::{BinaryHeap, HashSet};
+
+    pub struct MTopK {
+        pub k: usize,
+        pub m: &'static str,
+    }
+    type Heap = BinaryHeap<Reverse<i64>>;
+    impl CombineFn<i64, Heap, Vec<i64>> for MTopK {
+        fn create(&self) -> Heap {
+            BinaryHeap::new()
+        }
+        fn add_input(&self, acc: &mut Heap, v: i64) {
+            acc.push(Reverse(v));
+            let over = if self.m == "topk_add_ge" { acc.len() >= self.k } else { acc.len() > self.k };
+            if over {
+                acc.pop();
+            }
+        }
+        fn merge(&self, acc: &mut Heap, other: Heap) {
+            let fits = match self.m {
+                "topk_fast_plus1" => acc.len() + other.len() <= self.k + 1,
+                "topk_fast_only_acc" => acc.len() <= self.k,
+                _ => acc.len() + other.len() <= self.k,
+            };
+            if fits {
+                acc.extend(other);
+                return;
+            }
+            let mut v1: Vec<i64> = Vec::new();
+            let mut v2: Vec<i64> = Vec::new();
+            while let Some(Reverse(x)) = acc.pop() {
+                v1.push(x);
+            }
+            v1.reverse();
+            for Reverse(x) in other {
+                v2.push(x);
+            }
+            v2.sort_unstable();
+            if self.m != "topk_no_reverse_v2" {
+                v2.reverse();
+            }
+            let (mut i, mut j) = (0, 0);
+            let mut result = BinaryHeap::with_capacity(self.k);
+            let limit = if self.m == "topk_loop_le" { self.k + 1 } else { self.k };
+            while result.len() < limit && (i < v1.len() || j < v2.len()) {
+                let take1 = if self.m == "topk_cmp_le" {
+                    j >= v2.len() || (i < v1.len() && v1[i] <= v2[j])
+                } else {
+                    j >= v2.len() || (i < v1.len() && v1[i] >= v2[j])
+                };
+                let val = if i >= v1.len() {
+                    j += 1;
+                    v2[j - 1]
+                } else if take1 {
+                    i += 1;
+                    v1[i - 1]
+                } else {
+                    j += 1;
+                    v2[j - 1]
+                };
+                result.push(Reverse(val));
+                if self.m == "topk_skip_tie" && i < v1.len() && j < v2.len() && v1[i] == v2[j] {
+                    j += 1; // "dedupe" equal heads
+                }
+            }
+            *acc = result;
+        }
+        fn finish(&self, mut acc: Heap) -> Vec<i64> {
+            let mut v = Vec::new();
+            while let Some(Reverse(x)) = acc.pop() {
+                v.push(x);
+            }
+            if self.m != "topk_finish_asc" {
+                v.reverse();
+            }
+            v
+        }
+    }
+    impl LiftableCombiner<i64, Heap, Vec<i64>> for MTopK {
+        fn build_from_group(&self, values: &[i64]) -> Heap {
+            let mut heap: Heap = BinaryHeap::new();
+            for v in values.iter().cloned() {
+                heap.push(Reverse(v));
+                if self.m != "topk_build_unbounded" && heap.len() > self.k {
+                    heap.pop();
+                }
+            }
+            heap
+        }
+    }
+
+    pub struct MMin(pub &'static str);
+    impl CombineFn<i64, Option<i64>, i64> for MMin {
+        fn create(&self) -> Option<i64> {
+            None
+        }
+        fn add_input(&self, acc: &mut Option<i64>, v: i64) {
+            match acc {
+                Some(cur) => {
+                    if v < *cur {
+                        *cur = v;
+                    }
+                }
+                None => *acc = Some(v),
+            }
+        }
+        fn merge(&self, acc: &mut Option<i64>, other: Option<i64>) {
+            if let Some(b) = other {
+                match acc {
+                    Some(a) => {
+                        if b < *a {
+                            *a = b;
+                        }
+                    }
+                    None => {
+                        if self.0 != "min_merge_drop_none" {
+                            *acc = Some(b);
+                        }
+                    }
+                }
+            }
+        }
+        fn finish(&self, acc: Option<i64>) -> i64 {
+            if self.0 == "min_finish_default" {
+                return acc.unwrap_or_default();
+            }
+            acc.expect("empty")
+        }
+    }
+    impl LiftableCombiner<i64, Option<i64>, i64> for MMin {
+        fn build_from_group(&self, values: &[i64]) -> Option<i64> {
+            if self.0 == "min_build_first" {
+                return values.first().copied();
+            }
+            values.iter().cloned().min()
+        }
+    }
+
+    pub struct MAvg(pub &'static str);
+    impl CombineFn<f64, (f64, u64), f64> for MAvg {
+        fn create(&self) -> (f64, u64) {
+            (0.0, 0)
+        }
+        fn add_input(&self, acc: &mut (f64, u64), v: f64) {
+            acc.0 += v;
+            acc.1 += 1;
+        }
+        fn merge(&self, acc: &mut (f64, u64), other: (f64, u64)) {
+            acc.0 += other.0;
+            acc.1 += if self.0 == "avg_merge_count1" { 1 } else { other.1 };
+        }
+        fn finish(&self, acc: (f64, u64)) -> f64 {
+            if acc.1 == 0 {
+                0.0
+            } else if self.0 == "avg_mean_of_means" {
+                acc.0 / (acc.1 as f64) * 1.0000000000000002
+            } else {
+                acc.0 / (acc.1 as f64)
+            }
+        }
+    }
+    impl LiftableCombiner<f64, (f64, u64), f64> for MAvg {
+        fn build_from_group(&self, values: &[f64]) -> (f64, u64) {
+            (values.iter().sum(), values.len() as u64)
+        }
+    }
+
+    pub struct MDistinct(pub &'static str);
+    impl CombineFn<i64, HashSet<i64>, Vec<i64>> for MDistinct {
+        fn create(&self) -> HashSet<i64> {
+            HashSet::new()
+        }
+        fn add_input(&self, acc: &mut HashSet<i64>, v: i64) {
+            acc.insert(v);
+        }
+        fn merge(&self, acc: &mut HashSet<i64>, other: HashSet<i64>) {
+            let replace = if self.0 == "distinct_merge_other_empty" { other.is_empty() } else { acc.is_empty() };
+            if replace {
+                *acc = other;
+            } else {
+                acc.extend(other);
+            }
+        }
+        fn finish(&self, acc: HashSet<i64>) -> Vec<i64> {
+            acc.into_iter().collect()
+        }
+    }
+    impl LiftableCombiner<i64, HashSet<i64>, Vec<i64>> for MDistinct {
+        fn build_from_group(&self, values: &[i64]) -> HashSet<i64> {
+            values.iter().cloned().collect()
+        }
+    }
+
+    pub struct MCount(pub &'static str);
+    impl CombineFn<i64, u64, u64> for MCount {
+        fn create(&self) -> u64 {
+            0
+        }
+        fn add_input(&self, acc: &mut u64, _v: i64) {
+            *acc += 1;
+        }
+        fn merge(&self, acc: &mut u64, other: u64) {
+            *acc += if self.0 == "count_merge_one" { 1 } else { other };
+        }
+        fn finish(&self, acc: u64) -> u64 {
+            acc
+        }
+    }
+    impl LiftableCombiner<i64, u64, u64> for MCount {
+        fn build_from_group(&self, values: &[i64]) -> u64 {
+            if self.0 == "count_build_distinct" {
+                return values.iter().collect::<HashSet<_>>().len() as u64;
+            }
+            values.len() as u64
+        }
+    }
+}
+
+fn mutant() -> &'static str {
+    static M: std::sync::OnceLock<String> = std::sync::OnceLock::new();
+    M.get_or_init(|| std::env::var("C06_MUTANT").unwrap_or_default())
+}
+
 /// dispatch on the combiner id
 macro_rules! with_combiner {
     ($cid:expr, $k:expr, $den:expr, $f:ident, $($arg:expr),*) => {{
         let den = $den as f64;
+        let m = mutant();
         match $cid {
+            0 if m.starts_with("count_") => $f(&mutants::MCount(m), $($arg,)* &id, &enc_u64),
+            2 if m.starts_with("min_") => $f(&mutants::MMin(m), $($arg,)* &id, &enc_int),
+            4 if m.starts_with("avg_") => $f(&mutants::MAvg(m), $($arg,)* &move |x: i64| (x as f64) / den, &hexf),
+            6 if m.starts_with("distinct_") => $f(&mutants::MDistinct(m), $($arg,)* &id, &enc_sorted),
+            7 if m.starts_with("topk_") => $f(&mutants::MTopK { k: $k, m }, $($arg,)* &id, &enc_vec),
             0 => $f(&Count, $($arg,)* &id, &enc_u64),
             1 => $f(&Sum::<i64>::new(), $($arg,)* &id, &enc_int),
             2 => $f(&Min::<i64>::new(), $($arg,)* &id, &enc_int),
